@@ -184,6 +184,9 @@ def session_class():
 
         def onDisconnect(self):
             self.rec.append(("onDisconnect",))
+            if getattr(self, "ondisconnect_nobase", False):
+                # an application override that does not call the base class (as in the shipped examples)
+                return None
             return Base.onDisconnect(self)
 
         def onUserError(self, fail, msg):
